@@ -106,7 +106,7 @@ class Const(Shape):
         self.value, self.path = value, path
 
     def make(self, ctx, name):
-        return self.value
+        return ctx.lift(self.value)
 
     def concretize(self, vals, name, made):
         return encode_concrete(self.value, self.path)
